@@ -50,15 +50,25 @@ func (w *ResponseWriter) WriteHeader(code int) {
 // Flush implements the standard http.Flusher interface.
 func (w *ResponseWriter) Flush() {
 	if flusher, ok := w.Origin.(http.Flusher); ok {
+		w.flushStatus()
 		flusher.Flush()
+	}
+}
+
+// flushStatus records the implicit 200: flushing sends the header if it was not sent yet.
+func (w *ResponseWriter) flushStatus() {
+	if w.Status == 0 {
+		w.Status = http.StatusOK
 	}
 }
 
 // FlushError attempts to invoke FlushError() of the standard http.ResponseWriter.
 func (w *ResponseWriter) FlushError() error {
 	if flusher, ok := w.Origin.(interface{ FlushError() error }); ok {
+		w.flushStatus()
 		return flusher.FlushError()
 	} else if flusher, ok := w.Origin.(http.Flusher); ok {
+		w.flushStatus()
 		flusher.Flush()
 	}
 	return nil
